@@ -1,7 +1,7 @@
 #!/usr/bin/env python3
 """Self-validation of the monitors (DESIGN.md section 6).
 
-For every mutant in mutants/mutants.json (a realistic, property-breaking text edit of
+For every mutant in mutants/mutants.txt (a realistic, property-breaking text edit of
 amaranth_soc) this tool
   1. copies /repo/amaranth_soc and /repo/tests to a scratch directory under /var/tmp,
   2. applies the edit (exact text replacement; the edit must apply exactly `count` times),
@@ -63,6 +63,52 @@ def run_mutant(mut, tier, skip_tests, jobs_per_check):
         shutil.rmtree(scratch, ignore_errors=True)
 
 
+def parse_mutants(path):
+    """mutants.txt: blocks of
+         ### name: <id>
+         ### props: C01,C02
+         ### file: amaranth_soc/x.py      (optionally '### count: N' before the edit)
+         <<<<<<<
+         old text
+         =======
+         new text
+         >>>>>>>
+    Old/new text are taken verbatim, without the newline before the separators."""
+    muts, cur, ed, mode, buf = [], None, None, None, []
+    count = 1
+    for line in open(path).read().split("\n"):
+        if mode is None:
+            if line.startswith("### name:"):
+                cur = {"name": line.split(":", 1)[1].strip(), "properties": [], "edits": []}
+                muts.append(cur)
+            elif line.startswith("### props:"):
+                cur["properties"] = [x.strip() for x in line.split(":", 1)[1].split(",") if x.strip()]
+            elif line.startswith("### file:"):
+                ed = {"file": line.split(":", 1)[1].strip(), "count": count}
+            elif line.startswith("### count:"):
+                count = int(line.split(":", 1)[1])
+                if ed is not None:
+                    ed["count"] = count
+            elif line == "<<<<<<<":
+                mode, buf = "old", []
+        elif mode == "old":
+            if line == "=======":
+                ed["old"] = "\n".join(buf)
+                mode, buf = "new", []
+            else:
+                buf.append(line)
+        elif mode == "new":
+            if line == ">>>>>>>":
+                ed["new"] = "\n".join(buf)
+                ed.setdefault("count", 1)
+                cur["edits"].append(dict(ed))
+                mode, count = None, 1
+                ed = {"file": ed["file"], "count": 1}
+            else:
+                buf.append(line)
+    return muts
+
+
 def main():
     ap = argparse.ArgumentParser()
     ap.add_argument("--only")
@@ -71,7 +117,7 @@ def main():
     ap.add_argument("--skip-tests", action="store_true")
     ap.add_argument("--jobs", type=int, default=4)
     args = ap.parse_args()
-    muts = json.load(open(os.path.join(VERIF, "mutants", "mutants.json")))["mutants"]
+    muts = parse_mutants(os.path.join(VERIF, "mutants", "mutants.txt"))
     if args.only:
         ids = set(args.only.split(","))
         muts = [m for m in muts if ids & set(m["properties"])]
